@@ -241,7 +241,7 @@ def rule_effect(facts, cg):
 def run(ctx):
     facts = ctx["facts"]
     cg = CallGraph(facts)
-    return [rule_ro(facts, cg), rule_wmc(facts, cg), rule_effect(facts, cg), rule_iso(facts), rule_seg(facts), rule_cursor(facts, "C14-CURSOR", ["glaredb_core"], 1), rule_rowcount(facts), rule_ctascreate(facts), rule_insertcols(facts), rule_ctasexists(facts), rule_replace(facts), rule_droptype(facts)]
+    return [rule_ro(facts, cg), rule_wmc(facts, cg), rule_effect(facts, cg), rule_iso(facts), rule_seg(facts), rule_cursor(facts, "C14-CURSOR", ["glaredb_core"], 1), rule_rowcount(facts), rule_ctascreate(facts), rule_insertcols(facts), rule_ctasexists(facts), rule_replace(facts), rule_droptype(facts), rule_dupcol(facts), rule_dropschema(facts)]
 
 
 
@@ -417,7 +417,9 @@ CLAIM = {
             " Plus INSERTCOLS: the INSERT column list is mapped or refused, never dropped."
             " Plus CTASEXISTS: CREATE TABLE IF NOT EXISTS AS learns whether the table existed and appends only behind a flag recording it."
             " Plus REPLACE: the schema-level create_entry drops the existing entry before creating the replacement."
-            " Plus DROPTYPE: DROP TABLE / DROP VIEW remove an entry only after looking at its type.",
+            " Plus DROPTYPE: DROP TABLE / DROP VIEW remove an entry only after looking at its type."
+            " Plus DUPCOL: the CREATE TABLE binder compares declared column names with each other."
+            " Plus DROPSCHEMA: a schema leaves the catalog only after its table map has been inspected.",
     "note": "trusted: rustc MIR; class-hierarchy call graph; allow-list of mutator callers in rules/c14.py",
     "technique": "static analysis: who-may-call (call graph) + MIR must-pass-through / provenance (rustc_private driver)",
 }
@@ -517,4 +519,64 @@ def rule_droptype(facts):
         r.inst({"fn": fn.id, "type_checks": len(types), "dominates_removal": ok}, ok)
         if not ok:
             r.violate(fn.id, "drop-ignores-entry-type", "the entry is removed without a look at its type: DROP TABLE on a view's name drops the view", rec["file"], d.line)
+    return r
+
+
+def rule_dupcol(facts):
+    """A table's column names are unique (ignoring case, which is how unquoted references resolve). `CREATE TABLE t (a int, a int)`
+    used to succeed and every later reference to `a` was ambiguous. Decided: the CREATE TABLE binder (or one of its closures) compares
+    column names with each other before the bound statement is built: a name-equality / set-membership call whose operand comes from a
+    `Field`'s name."""
+    r = RuleResult("C14-DUPCOL", "the CREATE TABLE binder compares the column names with each other (duplicates are refused)", floor=1)
+    recs = facts.fns_matching(lambda i: "bind_create_table" in i and ("::bind_create_table" in i))
+    root = [x for x in recs if x["id"].endswith("::bind_create_table")]
+    if not root:
+        r.missing_anchor("bind_create_table")
+        return r
+    EQ = ("eq_ignore_ascii_case", "eq", "ne", "insert", "contains", "contains_key")
+    found = []
+    for rec in recs:
+        fn = Fn(rec)
+        for c in fn.calls():
+            last = c.name.rsplit("::", 1)[-1]
+            if last not in EQ:
+                continue
+            if last in ("insert", "contains", "contains_key") and "Set" not in c.name and "Map" not in c.name:
+                continue
+            txt = str([fn.origin(a, at=c.bb, through_calls=("::deref", "::as_str", "::as_ref", "::borrow")) for a in c.args if a[0] in ("c", "m")])
+            if "'name'" in txt and "Field" in txt:
+                found.append((rec["id"], c.line, last))
+    r.functions.add(root[0]["id"])
+    ok = bool(found)
+    r.inst({"fn": root[0]["id"], "name_comparisons": [f"{l}:{k}" for _i, l, k in found]}, ok)
+    if not ok:
+        r.violate(root[0]["id"], "duplicate-columns-accepted", "no comparison between the names of the declared columns: CREATE TABLE t (a int, a int) is accepted and "
+                  "`a` can never be referenced", root[0]["file"], root[0]["line"])
+    return r
+
+
+def rule_dropschema(facts):
+    """DROP SCHEMA without CASCADE must not take the schema's tables with it (CASCADE itself is refused as unsupported). Decided on the
+    catalog's drop_entry: the removal of the schema from the schema map is preceded by a look into the schema's own table map (the look sits on the path where the schema exists)."""
+    r = RuleResult("C14-DROPSCHEMA", "a schema is removed from the catalog only after its table map has been inspected", floor=1)
+    recs = facts.fns_matching(lambda i: "catalog::memory::MemoryCatalog" in i and i.endswith("::drop_entry"))
+    if not recs:
+        r.missing_anchor("MemoryCatalog::drop_entry")
+        return r
+    rec = recs[0]
+    fn = Fn(rec)
+    r.functions.add(fn.id)
+    removes = [c for c in fn.calls() if c.name.rsplit("::", 1)[-1] == "remove" and "HashIndex" in c.name]
+    looks = [c for c in fn.calls() if "CatalogMap::" in c.name and c.name.rsplit("::", 1)[-1] in ("for_each_entry", "is_empty", "len", "get_entry")]
+    if not removes:
+        r.missing_anchor("MemoryCatalog::drop_entry: schema map removal not found")
+        return r
+    for rm in removes:
+        # the inspection sits under `if let Some(schema)`: it cannot dominate the removal (absent schema + IF EXISTS), it has to precede it
+        ok = any(rm.bb in fn.reachable_from(l.bb) for l in looks)
+        r.call_sites += 1
+        r.inst({"fn": fn.id, "content_inspections": len(looks), "precedes_removal": ok}, ok)
+        if not ok:
+            r.violate(fn.id, "schema-dropped-with-contents", "the schema is removed without looking at what it contains: DROP SCHEMA (no CASCADE) silently drops its tables",
+                      rec["file"], rm.line)
     return r
